@@ -106,3 +106,18 @@ Example C15_outside_nonvacuous :
   y_eof s = true /\ p_accepted (y_p s) = [ex_m2; ex_m3] /\ p_written (y_p s) = stream_of [ex_m2; ex_m3] /\
   c_ph (y_co s) = SFinished.
 Proof. vm_compute. repeat split; try reflexivity; try lia; intros; try discriminate; repeat constructor. Qed.
+
+(* ---- LINGER as the application sets it (option layer, Model/Options.v, tied to options.rs by the translator) ---- *)
+From RZ Require Import Model.Options Proofs.OptionsProofs Proofs.OptionsCompose.
+(* accepted iff a 4-byte integer v >= -1: -1 = wait for ever, 0 = discard at once, v = that many ms; a wrong length is
+   refused under id 0, v < -1 under LINGER's id; nothing else changes *)
+Theorem C15_linger_option_semantics : forall (o : opts) (b : bytes), (match apply_opt o LINGER b with | inl o' => exists v, i32_of b = Some v /\ -1 <= v /\ linger_of o' = timeo_decode v /\ oget o' F_linger = VOZ (if v =? -1 then None else Some v) /\ (forall g, g <> F_linger -> o' g = o g) | inr e => (e = EVal 0 /\ i32_of b = None) \/ (e = EVal LINGER /\ exists v, i32_of b = Some v /\ v < -1) end)%Z.
+Proof. exact linger_semantics. Qed.
+Theorem C15_linger_option_get_after_set : forall (o : opts) (v : Z), (-1 <= v <= 2147483647)%Z -> exists o', apply_opt o LINGER (i32_bytes v) = inl o' /\ retrieve_opt o' LINGER = GOk (i32_bytes v).
+Proof. exact linger_get_after_set. Qed.
+(* composed with the coordinator: LINGER = 0 set through set_option ends the shutdown at once, LINGER = -1 keeps it
+   lingering while a pipe still holds messages *)
+Theorem C15_linger_option_zero_prompt : forall (o : opts) (now now' : N) (pe : bool), now <= now' -> exists o', apply_opt o LINGER (i32_bytes 0) = inl o' /\ c_ph (initiate (linger_cfg o') now now' pe coord0) = SFinished.
+Proof. exact linger_option_zero_prompt. Qed.
+Theorem C15_linger_option_infinite_waits : forall (o : opts) (t0 t0' : N) (ts : list tick), Forall (fun tk => snd tk = false) ts -> exists o', apply_opt o LINGER (i32_bytes (-1)) = inl o' /\ c_ph (run_ticks (linger_cfg o') (initiate (linger_cfg o') t0 t0' false coord0) ts) = SLingering.
+Proof. exact linger_option_infinite_waits. Qed.
